@@ -2,6 +2,7 @@ import HW.Model.Proc
 import HW.Spec.Lifecycle
 import HW.Proofs.ProcHoare
 namespace HW.Proc
+namespace Shape
 
 /-- containment: no panic ever propagates out of Start / Invoke / tryRestart. -/
 theorem no_escape (f : Nat) (s : PSt) :
@@ -315,4 +316,5 @@ theorem after_max_ok (max mw : Nat) (script : List Outcome) (batches : List (Lis
   · exact afterMaxOK_of_not_mem _ h
   · exact h
 
+end Shape
 end HW.Proc
